@@ -88,7 +88,9 @@ def make_cases(ctx, exports):
     idx = 0
     for tag in ("ls", "ls6", "ls7", "mp3", "mp41", "mp23", "mpcat", "seq"):
         for n, c in enumerate(exports.get(tag, [])):
-            vals = [VALUATIONS[(idx + ctx.seed) % 3]] if quick else VALUATIONS
+            vals = [VALUATIONS[(idx + ctx.seed) % 3]] if quick else list(VALUATIONS)
+            if tag.startswith("mp"):
+                vals = vals + ["shared"]       # rings of an area on the same locations (C17r8_A)
             for vi, v in enumerate(vals):
                 cases.append({"id": "%s-%d-%s" % (tag, n, v), "kind": "geom", "val": v, "precs": precs_for(ctx, idx, vi), "steps": c["steps"]})
             idx += 1
@@ -209,7 +211,8 @@ def run(ctx):
             ctx.sample({k: c[k] for k in c if k != "id"})
     ctx.assumptions = [
         "location tokens p q r s / U (undefined) / X (defined, out of range) are mapped to concrete locations by three fixed valuations "
-        "(small dyadic values, range borders +-180 / +-85.0511288, 7-digit values); every ring of an area gets its own coordinates",
+        "(small dyadic values, range borders +-180 / +-85.0511288, 7-digit values) in which every ring of an area gets its own coordinates, "
+        "and for areas also by a fourth one, 'shared', in which all rings lie on the same locations (a ring starts where the previous ended)",
         "WKB doubles are compared bit-exactly with the projection of the expected location (identity computed independently; Web-Mercator "
         "through osmium's projection object - its accuracy is C18); text coordinates must lie within half a unit of the requested last digit "
         "and have at most that many digits; exact text is compared only for values k/8 (GeomNum) - correct rounding of arbitrary binary "
